@@ -136,7 +136,7 @@ def parse_scenarios(text):
             elif t[1] == 'void':
                 tgt.outcome = ('void',)
             elif t[1] == 'ref':
-                tgt.outcome = ('ref', int(t[2]), int(t[3]))
+                tgt.outcome = ('ref', int(t[2]), int(t[3])) + ((int(t[4]),) if len(t) > 4 else ())
             elif t[1] == 'fatal':
                 tgt.outcome = ('fatal',)
             elif t[1] == 'exc':
